@@ -5,7 +5,7 @@ A packet is send, and then it is acknowledged by a '+'.
 """
 
 import logging
-from queue import Queue
+from queue import Full, Queue
 from threading import Lock
 
 
@@ -56,7 +56,12 @@ class RspHandler:
                 self.logger.debug("<-- %s", msg)
 
             if msg in ["+", "-"]:
-                self._ack_queue.put(msg, timeout=0.5)
+                try:
+                    self._ack_queue.put(msg, timeout=0.5)
+                except Full:
+                    # Nobody is waiting for this (stale or duplicate) ack.
+                    # Drop it, do not take down the receiver thread.
+                    self.logger.warning("discards stale ack %s", msg)
             else:
                 self.decodepkt(msg)
 
